@@ -10,16 +10,24 @@ import (
 
 // Verification hook (build tag verif only): a step budget for the lexer.
 // The lexer consumes each rune O(1) times (at most 3 calls of next() per byte
-// on every path), so a count above 16*len(input)+4096 can only be produced by
-// a loop that does not advance.
+// on every path), so a count above 16*len(input)+4096 for one lexer can only
+// be produced by a loop that does not advance.
 
-var verifLexSteps atomic.Int64
-var verifLexMax atomic.Int64 // high-water mark of steps/len ratio observation: max steps seen for one lexer
+var verifLexCur atomic.Pointer[lexer] // lexer the current count belongs to
+var verifLexSteps atomic.Int64        // steps of verifLexCur
+var verifLexTotal atomic.Int64        // all steps since the last reset (reporting only)
 
 // VerifLexStepsReset returns the steps counted since the last reset.
-func VerifLexStepsReset() int64 { return verifLexSteps.Swap(0) }
+func VerifLexStepsReset() int64 { return verifLexTotal.Swap(0) }
 
 func verifLexStep(l *lexer) {
+	verifLexTotal.Add(1)
+	if verifLexCur.Load() != l {
+		// another lexer: start counting afresh (concurrent lexers only make
+		// the count smaller, never larger)
+		verifLexCur.Store(l)
+		verifLexSteps.Store(0)
+	}
 	n := verifLexSteps.Add(1)
 	if n > int64(16*len(l.input)+4096) {
 		fmt.Fprintf(os.Stderr, "STEP-BUDGET name=%s steps=%d len=%d pos=%d\n", l.name, n, len(l.input), l.pos)
